@@ -51,8 +51,9 @@ Lemma map_pieces {A B} (f : list A -> list B) (g : list (list A)) sl :
   concat (map (fun s => f (rows_of s g)) sl) = f (concat g).
 Proof.
   intros Hf H. unfold rows_of.
-  rewrite <- (take_slice_partition g sl H) at 2.
-  rewrite <- concat_concat, Hf, map_map. reflexivity.
+  transitivity (f (concat (concat (map (fun s => take_slice s g) sl))));
+    [|rewrite (take_slice_partition g sl H); reflexivity].
+  rewrite <- concat_concat, Hf, !map_map. reflexivity.
 Qed.
 
 Section Org.
